@@ -18,7 +18,11 @@ import (
 // C17 — either / botheq groups are judged per object, all-empty and all-equal.
 
 var c17MemberTypes = []reflect.Type{gen.TString, gen.TString, gen.TInt, gen.TInt32, gen.TUint8, gen.TFloat64, gen.TBool, gen.TInt64, gen.TUint64, reflect.PointerTo(gen.TString), reflect.PointerTo(gen.TInt32), reflect.TypeOf([]int(nil)), reflect.TypeOf([]string(nil)),
-	reflect.TypeOf((*interface{})(nil)).Elem()} // interface-typed members: nil is empty, and equal only to nil
+	reflect.TypeOf((*interface{})(nil)).Elem(), // interface-typed members: nil is empty, and equal only to nil
+	reflect.TypeOf(c17Pair{}), reflect.TypeOf([2]int{})} // members held by value whose kind is struct / array: empty when they are the zero value
+
+// c17Pair: a group member of struct kind (a period, a money amount ...)
+type c17Pair struct{ From, To int }
 
 // c17Type builds a struct type with 2-6 group-tagged fields in 1-3 groups; the members of one
 // botheq group share a type. Returns the type and, per field, its group index (-1 = plain field).
@@ -124,6 +128,14 @@ func c17Value(rng *rand.Rand, t reflect.Type, gidx []int) (reflect.Value, string
 			f.SetFloat(float64(k) / 2)
 		case reflect.Bool:
 			f.SetBool(k%2 == 1)
+		case reflect.Struct:
+			if k != 0 {
+				f.Field(k % 2).SetInt(int64(k))
+			}
+		case reflect.Array:
+			if k != 0 {
+				f.Index(k % 2).SetInt(int64(k))
+			}
 		case reflect.Interface:
 			if k != 0 {
 				switch ifaceMode {
@@ -372,6 +384,7 @@ func c17StructCase(res *core.Result, rng *rand.Rand, t reflect.Type, gidx []int,
 			{Name: "L", Type: reflect.SliceOf(t), Tag: `valid:"exist"`},
 			{Name: "Arr", Type: reflect.ArrayOf(2, reflect.PointerTo(t)), Tag: `valid:"exist"`},
 			{Name: "M", Type: reflect.MapOf(gen.TString, reflect.PointerTo(t)), Tag: `valid:"required|m_m"`},
+			{Name: "MV", Type: reflect.MapOf(gen.TString, t), Tag: `valid:"exist"`}, // entries held by value: an all-empty entry is an object like any other
 		})
 		o := reflect.New(outer).Elem()
 		if rng.Intn(2) == 0 {
@@ -405,6 +418,13 @@ func c17StructCase(res *core.Result, rng *rand.Rand, t reflect.Type, gidx []int,
 			m.SetMapIndex(reflect.ValueOf(fmt.Sprintf("k%d", k)), ptrTo(v))
 		}
 		o.Field(6).Set(m)
+		mv := reflect.MakeMap(outer.Field(7).Type)
+		for k := 0; k < rng.Intn(3); k++ {
+			v, p := mk()
+			add(p)
+			mv.SetMapIndex(reflect.ValueOf(fmt.Sprintf("v%d", k)), v)
+		}
+		o.Field(7).Set(mv)
 		in = o.Addr().Interface()
 	}
 	res.Count("carrier|" + carrier)
